@@ -4,7 +4,7 @@ from __future__ import annotations
 from .. import gen
 from . import register
 from .common import ScenarioFamily
-from .c05 import CTYPES, base_scenario
+from .c05 import CTYPES, base_index, base_scenario
 
 VALS = {"connect": [1.1, 1.25, None], "read": [2.2, 2.5, None], "write": [3.3, 3.75, None]}
 
@@ -149,7 +149,7 @@ class StallFamilyL2(ScenarioFamily):
 
     def generate(self, seed, index, tier):
         r = gen.mk_rng(seed, "c16stall")
-        scn = base_scenario(seed, (index % 11), self.ex)   # company "alone"
+        scn = base_scenario(seed, base_index(CTYPES[index % len(CTYPES)], "alone"), self.ex)
         scn["seam"] = "L2"
         scn["log_sites"] = True
         scn["epilogue"] = ["close_pool"]
